@@ -11,6 +11,8 @@ import WpModel.Model.RenderState
 import WpModel.Model.DiskCache
 import WpModel.Model.WriteState
 import WpModel.Model.TextDecoration
+import WpModel.Model.AttachDates
+import WpModel.Model.SvgDraw
 
 namespace Wp.Drive.C19
 open Wp
@@ -437,8 +439,34 @@ def handleTextDeco (cmd : String) (args : List Sx) : Option String :=
 
 end textdeco
 
+/-- `attachdates <created|none> <modified|none> <(ctime mtime)|none> <now> <epoch|none>` → `created modified` -/
+def handleAttach (cmd : String) (args : List Sx) : Option String :=
+  match cmd, args with
+  | "attachdates", [c, m, ft, now, ep] => do
+    let fileTimes : Option (String × String) ← match ft with
+      | .atom "none" => some none
+      | .list [a, b] => do pure (some (← a.atom?, ← b.atom?))
+      | _ => none
+    let r := Wp.AttachDates.dates ⟨← optStr? c, ← optStr? m, fileTimes, ← now.atom?, ← optStr? ep⟩
+    pure (r.1 ++ " " ++ r.2)
+  | _, _ => none
+
+/-- `svgdraw <root> ((ref…) …) (fails…)` — image `k` draws the images of the `k`-th list, fails if the `k`-th flag is
+set → the images whose drawing was entered, in order, `|`, the images still flagged as being drawn afterwards. -/
+def handleSvgDraw (cmd : String) (args : List Sx) : Option String :=
+  match cmd, args with
+  | "svgdraw", [root, .list refs, .list fails] => do
+    let table ← allSome (fun r => r.list?.bind (allSome Sx.nat?)) refs
+    let failing ← allSome Sx.bool? fails
+    let r := Wp.SvgDraw.draw (fun i => table.getD i []) (fun i => failing.getD i false) (table.length + 2) []
+      (← root.nat?)
+    let entered := r.1.filterMap (fun e => match e with | .enter i => some (toString i) | _ => none)
+    pure (" ".intercalate entered ++ " | " ++ " ".intercalate (r.2.map toString))
+  | _, _ => none
+
 def handle (cmd : String) (args : List Sx) : Option String :=
   (handlePages cmd args).orElse fun _ => (handleImages cmd args).orElse fun _ =>
-    (handleControl cmd args).orElse fun _ => (handleWriteState cmd args).orElse fun _ => handleTextDeco cmd args
+    (handleControl cmd args).orElse fun _ => (handleWriteState cmd args).orElse fun _ =>
+    (handleTextDeco cmd args).orElse fun _ => (handleAttach cmd args).orElse fun _ => handleSvgDraw cmd args
 
 end Wp.Drive.C19
